@@ -8,7 +8,7 @@ ID = 'C11'
 LEVEL = 'exploration'
 RULE = ('Engine A: ALL eligibility matrices over 7 row types for G <= 3 | 4 geos (7^G, every arrangement, no symmetry '
         'argument) and for G = 5 | 5,6 one arrangement per class-count vector, x size-range / geo-ratio settings '
-        '(12 | 60; for G=4 quick 2, G=5 2 | 12; boundary ratios 1/2, 2/3, 2, 3 included; plus the complete 6 x 6 x 4 grid treatment range x control range x ratio tolerance on one arrangement per class-count vector of 4 geos (quick: vectors over the row types ctx, c_fixed, ct, tx)), x n_geos_max in {-, 3}. Three-way oracle: fast count == '
+        '(12 | 60; for G=4 quick 2, G=5 2 | 12; boundary ratios 1/2, 2/3, 2, 3 included; plus the complete 6 x 6 x 4 grid treatment range x control range x ratio tolerance on one arrangement per class-count vector of 4 geos (quick: vectors over the row types ctx, c_fixed, ct, tx)), x n_geos_max in {-, 3}. Plus HISTORIES on one object (parameters changed three times: new parameter object, in-place edit, new object; count, generators and reference compared after every change). Three-way oracle: fast count == '
         'number of (T,C) pairs listed by the real generators over treatment_group_size_range() (no duplicates) == '
         'length of the reference enumeration (itertools.product over per-geo options, exact rational size/ratio '
         'filters). Non-trivial = count > 0 and a non-free row or a size/ratio setting present; distinct = distinct case.')
@@ -70,6 +70,12 @@ def cases(tier, seed):
             c = {'panel': p, 'rows': list(mat), 'nomatrix': False, 'extra': None, 'kw': kw}
             if json.dumps(c, sort_keys=True) not in have:
                 out.append(c)
+    # HISTORIES on one object: for every 4-geo class-count vector (quick: over ctx, c_fixed, ct, tx) the parameters are changed
+    # three times (new object, in-place edit, new object) and count / generators / reference compared after every change
+    hist = [{'control_geos_range': [2, 3]}, {'geo_ratio_tolerance': 0.5}, {'treatment_geos_range': [1, 2], 'control_geos_range': [1, 1], 'geo_ratio_tolerance': 1.0}]
+    for mat in itertools.combinations_with_replacement(grid_rows, 4):
+        for kw in ({}, {'treatment_geos_range': [1, 2]}, {'geo_ratio_tolerance': 1.0}):
+            out.append({'panel': p, 'rows': list(mat), 'nomatrix': False, 'extra': None, 'kw': kw, 'history': hist})
     for G in ((5, 6) if thorough else (5,)):
         p = {'name': 'A', 'G': G, 'T': 10}
         for mat in itertools.combinations_with_replacement(rows7, G):
@@ -116,6 +122,33 @@ def run_case(case):
                      'only listed: %s; only in reference: %s' % (len(listing), len(F), [sc._fmt(d) for d in only_l], [sc._fmt(d) for d in only_f])})
     if cnt != len(F):
         viol.append({'key': 'C11:count-differs-from-reference', 'msg': 'count_max_designs()=%d, reference design space has %d designs' % (cnt, len(F))})
+    # the same object after its size / ratio parameters were CHANGED (a new parameter object assigned, then a field of it
+    # modified in place): count and generators read the live parameters and must keep agreeing with each other
+    if case.get('history'):
+        import dataclasses
+        for step, kw2 in enumerate(case['history']):
+            try:
+                if step % 2 == 0:
+                    mm.parameters = sc.params(kw2)
+                else:
+                    for k in ('treatment_geos_range', 'control_geos_range', 'geo_ratio_tolerance'):
+                        v = kw2.get(k)
+                        setattr(mm.parameters, k, tuple(v) if isinstance(v, list) else v)
+                cnt2 = int(mm.count_max_designs())
+                lst2 = set()
+                for n in mm.treatment_group_size_range():
+                    for T in mm.treatment_group_generator(n):
+                        for C in mm.control_group_generator(T):
+                            gi = mm.data.geo_index
+                            lst2.add((frozenset(gi[i] for i in T), frozenset(gi[i] for i in C)))
+            except ValueError:
+                continue
+            F2 = {(T, C) for T, C in relig.legal_designs(ref.rowd, [g for g in admitted if g in ref.rowd])
+                  if relig.sizes_ok(len(T), len(C), kw2)}
+            if cnt2 != len(lst2) or lst2 != F2:
+                viol.append({'key': 'C11:after-parameter-change', 'msg': 'after changing the parameters of the same object to %s: count_max_designs()=%d, '
+                             'generators list %d designs, reference %d' % (kw2, cnt2, len(lst2), len(F2))})
+                break
     nonfree = any(r != [1, 1, 1] for r in case['rows'])
     return {'viol': viol, 'nontrivial': cnt > 0 and (nonfree or bool(case['kw'])), 'outcome': min(cnt, 40),
             'counts': {'designs_enumerated': len(F)}}
